@@ -234,7 +234,13 @@ pub fn gen_doc_with(r: &mut Rng, with_crypt_override: bool, stale_objstm: bool) 
                     }
                     sd.retain(|(kk, _)| kk != b"Filter");
                     sd.push((k("Filter"), RObj::Array(vec![name("Crypt")])));
-                    sd.push((k("DecodeParms"), RObj::Dict(dp)));
+                    // the decode parameters may be left out, or be the null of a parallel array: all defaults, and the
+                    // default of Name is Identity (ISO 32000-1 Table 14)
+                    match r.below(8) {
+                        0 => {}
+                        1 => sd.push((k("DecodeParms"), RObj::Array(vec![RObj::Null]))),
+                        _ => sd.push((k("DecodeParms"), RObj::Dict(dp))),
+                    }
                 }
                 RObj::Stream(sd, body)
             }
